@@ -4,7 +4,6 @@ package main
 
 import (
 	"bytes"
-	"encoding/hex"
 	"fmt"
 	"strings"
 
@@ -42,11 +41,67 @@ type c10Order struct {
 	Announcement uint8 `json:"announcement"`
 	Confirmation uint8 `json:"confirmation"`
 	// bid
-	MinNodeTier     uint32 `json:"min_node_tier"`
-	SelfChanBalance int64  `json:"self_chan_balance"`
-	Ticket          string `json:"ticket"` // hex of sidecar.SerializeTicket, "" = none
-	Unannounced     bool   `json:"unannounced"`
-	ZeroConf        bool   `json:"zero_conf"`
+	MinNodeTier     uint32     `json:"min_node_tier"`
+	SelfChanBalance int64      `json:"self_chan_balance"`
+	Ticket          *c10Ticket `json:"ticket"` // nil = none
+	Unannounced     bool       `json:"unannounced"`
+	ZeroConf        bool       `json:"zero_conf"`
+}
+
+// c10Ticket is the spec of a sidecar ticket embedded in a bid (built directly,
+// never through the ticket decoder).
+type c10Ticket struct {
+	ID            string `json:"id"`
+	Version       uint8  `json:"version"`
+	State         uint8  `json:"state"`
+	Capacity      int64  `json:"capacity"`
+	PushAmt       int64  `json:"push_amt"`
+	LeaseDuration uint32 `json:"lease_duration"`
+	SignPubKey    string `json:"sign_pub_key"`
+	Auto          bool   `json:"auto"`
+	Unannounced   bool   `json:"unannounced"`
+	ZeroConf      bool   `json:"zero_conf"`
+	// recipient part
+	HasRecipient bool   `json:"has_recipient"`
+	NodePubKey   string `json:"node_pub_key"`
+	MultiSigKey  string `json:"multisig_key"`
+	MultiSigIdx  uint32 `json:"multisig_idx"`
+	// order part
+	HasOrder bool   `json:"has_order"`
+	BidNonce string `json:"bid_nonce"`
+	// execution part
+	HasExecution bool   `json:"has_execution"`
+	PendingChan  string `json:"pending_chan"`
+}
+
+func (t *c10Ticket) build() *sidecar.Ticket {
+	if t == nil {
+		return nil
+	}
+	res := &sidecar.Ticket{
+		Version: sidecar.Version(t.Version), State: sidecar.State(t.State),
+		Offer: sidecar.Offer{
+			Capacity: btcutil.Amount(t.Capacity), PushAmt: btcutil.Amount(t.PushAmt),
+			LeaseDurationBlocks: t.LeaseDuration, SignPubKey: c10ParseKey(t.SignPubKey),
+			Auto: t.Auto, UnannouncedChannel: t.Unannounced, ZeroConfChannel: t.ZeroConf,
+		},
+	}
+	copy(res.ID[:], unhexOr(t.ID))
+	if t.HasRecipient {
+		res.Recipient = &sidecar.Recipient{
+			NodePubKey: c10ParseKey(t.NodePubKey), MultiSigPubKey: c10ParseKey(t.MultiSigKey),
+			MultiSigKeyIndex: t.MultiSigIdx,
+		}
+	}
+	if t.HasOrder {
+		res.Order = &sidecar.Order{}
+		copy(res.Order.BidNonce[:], unhexOr(t.BidNonce))
+	}
+	if t.HasExecution {
+		res.Execution = &sidecar.Execution{}
+		copy(res.Execution.PendingChannelID[:], unhexOr(t.PendingChan))
+	}
+	return res
 }
 
 func arr33(s string) (res [33]byte) {
@@ -96,13 +151,7 @@ func (o *c10Order) build() order.Order {
 		UnannouncedChannel: o.Unannounced,
 		ZeroConfChannel:    o.ZeroConf,
 	}
-	if o.Ticket != "" {
-		t, err := sidecar.DeserializeTicket(bytes.NewReader(unhexOr(o.Ticket)))
-		if err != nil {
-			panic(err)
-		}
-		b.SidecarTicket = t
-	}
+	b.SidecarTicket = o.Ticket.build()
 	return b
 }
 
@@ -162,44 +211,24 @@ func renderOrder(o order.Order) string {
 
 // ---------------------------------------------------------------- generators
 
-func (g *c10Gen) ticket() string {
-	var t sidecar.Ticket
-	copy(t.ID[:], g.bytes(8))
-	t.Version = sidecar.Version(g.rng.Intn(2))
-	t.State = sidecar.State(g.rng.Intn(7))
-	t.Offer = sidecar.Offer{
-		Capacity:            btcutil.Amount(g.rng.Int63n(1 << 40)),
-		PushAmt:             btcutil.Amount(g.rng.Int63n(1 << 30)),
-		LeaseDurationBlocks: g.u32(),
-		SignPubKey:          c10ParseKey(g.key()),
-		Auto:                g.rng.Intn(2) == 0,
-		UnannouncedChannel:  g.rng.Intn(2) == 0,
-		ZeroConfChannel:     g.rng.Intn(2) == 0,
-	}
-	if g.rng.Intn(2) == 0 {
-		t.Recipient = &sidecar.Recipient{
-			NodePubKey: c10ParseKey(g.key()), MultiSigPubKey: c10ParseKey(g.key()),
-			MultiSigKeyIndex: g.u32(),
-		}
-	}
-	if g.rng.Intn(2) == 0 {
-		t.Order = &sidecar.Order{}
-		copy(t.Order.BidNonce[:], g.bytes(32))
-	}
-	if g.rng.Intn(3) == 0 {
-		t.Execution = &sidecar.Execution{}
-		copy(t.Execution.PendingChannelID[:], g.bytes(32))
+// ticket draws a sidecar ticket: every state with any subset of the optional
+// parts (no signatures). The only filter is that the real SerializeTicket
+// accepts it – whether it reads back is what is being checked.
+func (g *c10Gen) ticket() *c10Ticket {
+	t := &c10Ticket{
+		ID: g.hexN(8), Version: uint8(g.rng.Intn(2)), State: uint8(g.rng.Intn(7)),
+		Capacity: g.rng.Int63n(1 << 40), PushAmt: g.rng.Int63n(1 << 30), LeaseDuration: g.u32(),
+		SignPubKey: g.key(), Auto: g.rng.Intn(2) == 0, Unannounced: g.rng.Intn(2) == 0,
+		ZeroConf:     g.rng.Intn(2) == 0,
+		HasRecipient: g.rng.Intn(2) == 0, NodePubKey: g.key(), MultiSigKey: g.key(), MultiSigIdx: g.u32(),
+		HasOrder: g.rng.Intn(2) == 0, BidNonce: g.hexN(32),
+		HasExecution: g.rng.Intn(3) == 0, PendingChan: g.hexN(32),
 	}
 	var buf bytes.Buffer
-	if err := sidecar.SerializeTicket(&buf, &t); err != nil {
-		return ""
+	if err := sidecar.SerializeTicket(&buf, t.build()); err != nil {
+		return nil
 	}
-	// keep only tickets the ticket codec itself round-trips (C15's domain)
-	y, err := sidecar.DeserializeTicket(bytes.NewReader(buf.Bytes()))
-	if err != nil || renderTicket(y) != hx(buf.Bytes()) {
-		return ""
-	}
-	return hex.EncodeToString(buf.Bytes())
+	return t
 }
 
 func (g *c10Gen) keyList() []string {
@@ -341,8 +370,12 @@ func (c *c10Run) countOrder(spec *c10Order, tag string) {
 		if spec.SelfChanBalance != 0 {
 			r.Count("order/opt-self-chan-balance")
 		}
-		if spec.Ticket != "" {
+		if spec.Ticket != nil {
 			r.Count("order/opt-sidecar-ticket")
+			r.Count(fmt.Sprintf("order/ticket-state-%d", spec.Ticket.State))
+			if !spec.Ticket.HasOrder && spec.Ticket.State >= 3 {
+				r.Count("order/ticket-ordered-without-order-part")
+			}
 		}
 		if spec.Unannounced {
 			r.Count("order/opt-unannounced")
